@@ -32,6 +32,19 @@ def run(ctx):
     ]
     ctx.inject('internal/counter', 'internal/verifh/c09')
 
+    # the rotation-timer scenario uses real timers with the library's one-minute minimum delay
+    # (about two minutes of waiting): it runs in the background while everything else is checked
+    import threading
+    timer_res = {}
+
+    def timer_job():
+        try:
+            timer_res['r'] = ctx.run_harness('./internal/verifh/c09', 'TestVerifC09Timer', inp={'enabled': True}, timeout=900)
+        except Exception as e:  # noqa: BLE001
+            timer_res['e'] = e
+    th = threading.Thread(target=timer_job)
+    th.start()
+
     # ---- 1. model -> code: every (day, byte) vector TLC enumerates ----------
     wins = day_windows(ctx)
     days = '(' + ' \\cup '.join('(%d..%d)' % w for w in wins) + ')'
@@ -137,6 +150,30 @@ MCBytes == {%s}
     for m in [x for x in recs if x.get('kind') == 'mismatch']:
         ctx.violation('C09:rotation:%s:%s' % (m.get('what'), m.get('op', '')), m,
                       'behaviour %s step %s (%s): model and real telemetry directory differ: %s' % (m.get('id'), m.get('step'), m.get('op'), json.dumps(m)[:600]))
+    # ---- 3a. the timer protocol as a design (CalendarTimer.tla): liveness under weak fairness ----
+    for rearm, want_ok in (('TRUE', True), ('FALSE', False)):
+        cfg = ('SPECIFICATION Spec\nCONSTANTS\n W = %d\n DayTicks = 3\n MaxNow = %d\n RearmAlways = %s\n'
+               'INVARIANTS AlwaysArmed OneTimer SpanSane\nPROPERTY RotatesAfterEnd\n' % (ctx.seed % 7, ctx.pick(30, 60), rearm))
+        r = ctx.tlc('CalendarTimer', cfg_text=cfg, label='CalendarTimer(rearm=%s)' % rearm, count=want_ok)
+        if want_ok and not r.ok:
+            raise Infra('CalendarTimer: the timer protocol as specified does not satisfy its own properties: %s\n%s' % (r.error, r.out[-1500:]))
+        if not want_ok and r.ok:
+            raise Infra('CalendarTimer: the spec does not notice a rotate that fails to re-arm (vacuous)')
+    # ---- 3b. the rotation timer (started at the beginning) ----
+    th.join()
+    if 'e' in timer_res:
+        raise timer_res['e']
+    recs, rc, out = timer_res['r']
+    tm = [x for x in recs if x.get('kind') == 'timer']
+    if not tm:
+        raise Infra('C09 timer harness wrote nothing:\n' + out[-1500:])
+    ctx.cov['timer_scenario'] = tm[0]
+    ctx.cov['evaluations'] += 1
+    if not tm[0]['still_old_before_end']:
+        raise Infra('C09 timer scenario: the file rotated before the recorded end was reached (scenario mis-set): %s' % json.dumps(tm[0]))
+    if not tm[0]['rotated_after_end']:
+        ctx.violation('C09:timer:not-rotated-after-end', tm[0],
+                      'a rotating counter file whose timer fired just before the recorded end never started the next span\'s file after the end was reached: %s' % json.dumps(tm[0]))
     # ---- 4. unbounded: Apalache discharges the span arithmetic for ALL natural day numbers (optional strengthening) ----
     if ctx.thorough():
         import shutil, subprocess, tempfile
